@@ -8,7 +8,8 @@ from pmon.ref.model import RefModel
 from pmon.gen.trees import usable_bases, DEFAULT
 
 BASES = [':ARG0', ':ARG1', ':ARG2', ':mod', ':domain', ':op1', ':op2', ':op10', ':polarity',
-         ':quant', ':', ':x-y', ':consist-of', ':prep-on-behalf-of', ':time', ':poss', ':r0']
+         ':quant', ':', ':x-y', ':consist-of', ':prep-on-behalf-of', ':time', ':poss', ':r0',
+         ':consist', ':x', ':u']
 CONSTS = ['-', 'foo', '"a b"', '"(p)"', '"a~b"', 7, 0, 0.5, -1, -1.5, 1e-7, None, '00',
           '"\\"q\\""', 'imperative', '+', 0.0, '"#x"', '\u03b5', 'c,d', 100, '"~1"']
 CONCEPTS = ['alpha', 'beta', 'i', 'a', 'b', None, '"str"', 'bark-01', 7, 0, 0.0, -2, '-']
@@ -204,7 +205,7 @@ def edit(rng, g, rm, n_ops=None, roles=(':ARG3', ':mod', ':time', ':polarity')):
     ops = []
     roles = [r for r in roles if r != rm.top_role]
     for _ in range(n_ops or rng.randrange(1, 6)):
-        k = rng.randrange(0, 6)
+        k = rng.randrange(0, 8)
         vs_ = sorted(g.variables())
         if not g.triples:
             break
@@ -241,6 +242,41 @@ def edit(rng, g, rm, n_ops=None, roles=(':ARG3', ':mod', ':time', ':polarity')):
                 g.triples.remove(t)
                 g.epidata.pop(t, None)
                 ops.append('del-attr')
+        elif k == 6:
+            # rename a node everywhere (triples, marker keys, Push markers, top): same number of
+            # triples, another set of variables
+            old = rng.choice(vs_)
+            new = 'q%d' % len(g.triples)
+            consts = {t[2] for t in g.triples}
+            if new not in g.variables() and new not in consts:
+                def rn(x):
+                    return new if x == old else x
+                newt = [(rn(s), r, rn(t) if r != ':instance' else t) for s, r, t in g.triples]
+                newepi = {}
+                for (s, r, t), ms in g.epidata.items():
+                    key = (rn(s), r, rn(t) if r != ':instance' else t)
+                    newepi[key] = [Push(new) if isinstance(m, Push) and m.variable == old else m for m in ms]
+                was_top = g.top == old
+                g.triples[:] = newt
+                g.epidata.clear()
+                g.epidata.update(newepi)
+                if was_top:
+                    g.top = new
+                ops.append('rename')
+        elif k == 7:
+            # replace the target of an attribute by another constant (same number of triples)
+            vs = g.variables()
+            at = [i for i, t in enumerate(g.triples) if t[1] != ':instance' and t[2] not in vs]
+            if at:
+                i = rng.choice(at)
+                s0, r0, t0 = g.triples[i]
+                nt = (s0, r0, 'repl%d' % i)
+                if nt not in g.triples:
+                    ms = g.epidata.pop(g.triples[i], None)
+                    g.triples[i] = nt
+                    if ms is not None:
+                        g.epidata[nt] = ms
+                    ops.append('replace-attr')
     return ops
 
 
